@@ -610,7 +610,7 @@ def make_uxda(ex, name, env, dims=None, **kw):
     return o
 
 
-@model("class:UxDataArray", "uxarray.core.dataarray.UxDataArray")
+@model("class:UxDataArray", "uxarray.core.dataarray.UxDataArray", "uxarray.UxDataArray")
 def ctor_uxda(ex, args, kwargs, node):
     trusted(ex, "UxDataArray(data, uxgrid=, dims=, name=): records its arguments (xarray.DataArray constructor assumed)")
     o = Obj("UxDataArray")
